@@ -42,7 +42,9 @@ def shards(tier, seed):
 
 
 def reward(ln, r):
-    if ln in ("ts", "tsb"):
+    if ln == "tsb":
+        return r * 2            # with the binarizer r >= 2 (not idempotent on {0,1}): 0 -> 0, 2 -> 1
+    if ln == "ts":
         return r
     return r * 2.5 + 0.5            # exactly representable, partial sums exact
 
@@ -102,6 +104,8 @@ def judge(cfg, ln, seq, comp, batch=None):
 def run_shard(shard):
     ln, nn = shard["ln"], shard["nn"]
     cfg = A.config(ln, nn, seed=shard["seed"])
+    if ln == "tsb":
+        cfg["lp"] = ["ThompsonSampling", {"binarizer": "bin_ge2"}]
     acc = report.Acc(ID, replay, shard)
     for n in range(1, shard["nmax"] + 1):
         for seq in itertools.product(ROWS, repeat=n):
